@@ -88,6 +88,23 @@ def mutate(v, op):
     return False
 
 
+def shared_containers(v):
+    """A JSON value is a tree: no list/dict object may occur at two positions of a value handed to user code."""
+    seen = set()
+    stack = [v]
+    while stack:
+        x = stack.pop()
+        if isinstance(x, (list, dict)):
+            if id(x) in seen:
+                return True
+            seen.add(id(x))
+        if isinstance(x, dict):
+            stack.extend(x.values())
+        elif isinstance(x, (list, tuple)):
+            stack.extend(x)
+    return False
+
+
 def norm_walk(w):
     return sorted([d, sorted(a), sorted(b)] for d, a, b in w)
 
@@ -111,6 +128,7 @@ def run_program(case, mutations_on):
         for build_no in (1, 2, 3):
             log = []
             kept = {}
+            aliasing = []
 
             def maybe(i, edge, value):
                 mop = muts.get((i, edge))
@@ -133,10 +151,14 @@ def run_program(case, mutations_on):
                     extra = None
                     if op.get('query') == 'list_dir':
                         l = b.list_dir(os.path.join(R, 'in'))
+                        if shared_containers(l):
+                            aliasing.append('list_dir result')
                         extra = sorted(l)
                         maybe(i, 'list_dir_result', l)
                     elif op.get('query') == 'walk':
                         w = b.walk(os.path.join(R, 'in'))
+                        if shared_containers(w):
+                            aliasing.append('walk result')
                         extra = norm_walk(w)
                         if w:
                             mop = muts.get((i, 'walk_result'))
@@ -172,6 +194,8 @@ def run_program(case, mutations_on):
                         r = b.build_file(os.path.join(R, 'out', 'o%d' % i), 'f%d' % i, make_fn(i, op), *args, **kwargs)
                     else:
                         r = b.subbuild('f%d' % i, make_fn(i, op), *args, **kwargs)
+                    if shared_containers(r):
+                        aliasing.append('value returned by build_file/subbuild')
                     obs.append(copy.deepcopy(r))
                     if args != op['args'] or kwargs != op.get('kwargs', {}):
                         obs.append('CALLER-ARGS-CHANGED')
@@ -186,7 +210,7 @@ def run_program(case, mutations_on):
             out = FileBuilder.build(cache, 'c11', root)
             with gzip.open(cache, 'rt') as fh:
                 cj = json.load(fh)
-            results.append((out, list(log), cj))
+            results.append((out, list(log), cj, list(aliasing)))
         return results, applied[0]
     finally:
         sb.close()
@@ -203,6 +227,10 @@ def run_case(case):
             raise
         return [failure('C11.unexpected_exception', 'a build raised %s' % type(e).__name__, case, tb[-1500:])], 0
     fails = []
+    for k, res in enumerate(twin, 1):
+        if res[3]:
+            fails.append(failure('C11.internal_aliasing', 'a %s holds one container object at two positions' % res[3][0], case, ''))
+            return fails, applied
     for k, (t, m) in enumerate(zip(twin, mutated), 1):
         tj = json.dumps(t[2], sort_keys=True).replace(_top(t), 'R')
         mj = json.dumps(m[2], sort_keys=True).replace(_top(m), 'R')
